@@ -55,6 +55,8 @@ def in_parallel(jobs: Sequence[Any]) -> List[Any]:
 def must_include(item: Dict[str, Any]) -> bool:
     """Two-slot items that are always run (also in the quick tier): slots that are known to interact."""
     k = item.get("k")
+    if k == "serial":  # serialization settings inherited from two parents x an untagged class elsewhere
+        return True
     if k == "layout":  # what precedes the first line x which failing statement ends the file
         return True
     if k == "docref":  # every role x every target shape, at the default place
